@@ -59,6 +59,29 @@ theorem T_C18_sphere_after_move (vs : List V3) (k : Nat) (p c : V3) (r : Option 
       simp [List.getD_eq_getElem?_getD, List.getElem?_set_ne (Ne.symm h)]
     simp only [h, if_false, List.length_set, this]
 
+/-- history across re-assembly: whatever happened to the mesh since the finder was created, once the mesh has been
+    re-assembled the finder returns exactly the vertices of the *new* assembly (indices into the current
+    `mesh.vertices`) that lie in the sphere / on the plane — nothing of an earlier assembly survives -/
+theorem T_C18_after_reassembly (vs vs' : List V3) (before : List MeshEvent) (c o n : V3) (r : Option Rat) (i : Nat) :
+    (i ∈ findInSphereAfter vs (before ++ [.reassemble vs']) c r ↔
+      i < vs'.length ∧ 0 < r.getD tol ∧ dist2 (vs'.getD i V3.zero) c < r.getD tol * r.getD tol) ∧
+    (i ∈ findOnPlaneAfter vs (before ++ [.reassemble vs']) o n ↔ i < vs'.length ∧ onPlane o n (vs'.getD i V3.zero)) := by
+  have h : meshAfter vs (before ++ [.reassemble vs']) = vs' := by
+    simp [meshAfter, List.foldl_append, MeshEvent.apply]
+  unfold findInSphereAfter findOnPlaneAfter
+  rw [h]
+  exact ⟨T_C18_sphere vs' c r i, by simp [findOnPlane, mem_findIdx]⟩
+
+/-- … and in general the answer after any history is the filter over the current vertex list -/
+theorem T_C18_finder_history (vs : List V3) (es : List MeshEvent) (c : V3) (r : Option Rat) (i : Nat) :
+    i ∈ findInSphereAfter vs es c r ↔
+      i < (meshAfter vs es).length ∧ 0 < r.getD tol ∧
+        dist2 ((meshAfter vs es).getD i V3.zero) c < r.getD tol * r.getD tol :=
+  T_C18_sphere _ c r i
+
+example : findInSphereAfter [⟨0, 0, 0⟩, ⟨1, 0, 0⟩] [.move 1 ⟨5, 0, 0⟩, .reassemble [⟨5, 0, 0⟩, ⟨0, 0, 0⟩, ⟨0, 1, 0⟩]]
+    ⟨0, 0, 0⟩ (some (3 / 2)) = [1, 2] := by decide +kernel
+
 /-- `find_on_plane` returns exactly the vertices that pass `is_point_on_plane` -/
 theorem T_C18_plane (vs : List V3) (o n : V3) (i : Nat) :
     i ∈ findOnPlane vs o n ↔ i < vs.length ∧ onPlane o n (vs.getD i V3.zero) := by
